@@ -40,6 +40,7 @@ class TriviaPlan(J):
     p_wide_sep: float = 0.0                 # several blanks/tabs between parameters
     p_body_comment: float = 0.0             # comment line between directive line and body
     p_desc_parens: float = 0.0              # Description text in parentheses
+    p_desc_blank: float = 0.0               # an empty line between the Description keyword line and the (bare) text
     final_newline: bool = True
     head_comment: bool = False              # comment before the first directive of a file
     risky: List[str] = field(default_factory=list)   # trivia known to break the library (see selftest)
@@ -78,6 +79,7 @@ def random_plan(rng):
     p.p_block_annotation = pr(0.5)
     p.p_wide_sep = pr(0.3)
     p.p_body_comment = pr(0.3)
+    p.p_desc_blank = pr(0.4)
     p.p_desc_parens = pr(0.3)
     p.final_newline = rng.random() < 0.8
     p.head_comment = rng.random() < 0.3
@@ -409,6 +411,10 @@ class _Renderer:
                 self.trailing()
                 self.nl()
             else:
+                if self.chance(p.p_desc_blank):
+                    self.nl()
+                    if self.chance(0.3):
+                        self.nl()
                 self.w(n.body)
                 end = len(self.buf)
                 self.nl()
